@@ -56,7 +56,7 @@ def run(ctx):
     nontriv = len({tuple(c["s"]) for c in rows if any(b in (39, 34, 92, 36, 96, 32, 10, 59, 38, 124, 42, 126, 33, 35) for b in c["s"])})
     ctx.cov.update({
         "traces_validated_against_impl": len(rows), "evaluations": len(rows), "distinct_nontrivial": nontriv,
-        "rule": "all strings of length <= %d over the 15 shell-special classes (+ '~/' prefixes) and seeded strings over "
+        "rule": "all strings of length <= %d over the 15 shell-special classes (+ '~/' prefixes, 32 tilde-prefix forms, runs of up to 200 special characters) and seeded strings over "
                 "arbitrary non-NUL bytes, through the real ShellEscape and ShellEscapeExceptTilde; TLC judges each escaped "
                 "text with the POSIX lexer model, dash and bash read each text too; non-trivial = input has a special byte" % bind_len,
         "exhaustive": True, "model_maxlen": mc_len, "bind_maxlen": bind_len, "shell_disagreements": len(shbad),
